@@ -18,8 +18,8 @@ RULE = ("configurations: predictor hidden layers in {[], [k], [k1,k2]} (widths u
         "U' = U - lr*dLA/dU; independently <(W-W')/lr + alpha dLA, dLA>_F = 0. non-trivial = some predictor tensor has >= 2 rows and a "
         "non-zero adversary gradient; distinct = distinct (configuration, batch)")
 ASSUMPTIONS = ["float32 tolerance: 1e-4 relative to the tensor/gradient scale (max-norm)", "plain SGD optimisers for both players (as the statement says)",
-               "TensorFlow engine: tensorflow/keras are not installed; it is exercised only through a torch-backed shim in the thorough tier (see DESIGN)"]
-CLASSES = ["matrix_tensor_ge2_rows", "equalized_odds", "multiclass_target", "continuous_target", "multiclass_sensitive", "continuous_sensitive",
+               "TensorFlow engine: tensorflow/keras are not installed; the real TensorflowEngine.train_step is executed on a declared torch-backed shim (mc/tf_shim.py, trusted); if the engine touches an API outside the shim that part reports tf_not_executable and raises no alarm"]
+CLASSES = ["tensorflow_engine_via_shim", "matrix_tensor_ge2_rows", "equalized_odds", "multiclass_target", "continuous_target", "multiclass_sensitive", "continuous_sensitive",
            "zero_adversary_gradient_tensor", "two_hidden_layers", "alpha_zero"]
 
 ROWS = [(1.0, 2.0, 0.5), (2.0, 1.0, -1.0), (-1.0, -1.5, 1.0), (0.5, -2.0, 2.0)]
@@ -55,6 +55,14 @@ def cases(tier, seed):
                     if tier == "quick" and adv == [2] and (ty != "binary" or ta != "binary") and arch not in ([], [2], [2, 2]):
                         continue
                     yield {"arch": arch, "adv": adv, "ty": ty, "ta": ta, "cons": cons, "seed": seed, "tier": tier}
+    # TensorFlow engine through the torch-backed shim (mc/tf_shim.py): [] / [k] / [k, relu] architectures
+    tf_archs = [[], [2], [2, "relu"]] if tier == "quick" else [[], [1], [2], [3], [2, "relu"], [3, "relu"], [2, 2]]
+    for arch in tf_archs:
+        for ty, ta in itertools.product(types, types):
+            if tier == "quick" and (ty, ta) not in (("binary", "binary"), ("multiclass", "binary"), ("continuous", "continuous"), ("binary", "multiclass")):
+                continue
+            for cons in ("demographic_parity", "equalized_odds"):
+                yield {"kind": "tf", "arch": arch, "adv": [] if arch != [2] else [2], "ty": ty, "ta": ta, "cons": cons, "seed": seed, "tier": tier}
 
 
 def describe(case):
@@ -136,6 +144,8 @@ def reference_update(rec, lr, alpha, torch):
 
 
 def run_case(case):
+    if case.get("kind") == "tf":
+        return _run_tf(case)
     from fairlearn.adversarial import AdversarialFairnessClassifier, AdversarialFairnessRegressor
 
     Spy, torch = _spy_backend()
@@ -223,6 +233,112 @@ def run_case(case):
             if bi == 0:
                 outcome.append([round(float(p.detach().sum()), 5) for p in _LOG[-1]["W_after"]])
     out["outcome"] = outcome
+    out["classes"] = sorted(out["classes"])
+    return out
+
+
+def _run_tf(case):
+    """The real TensorflowEngine.train_step, executed on the declared torch-backed shim."""
+    import torch
+
+    from mc import tf_shim
+
+    out = {"evals": 0, "violations": [], "classes": set(), "nontrivial": False}
+    V = out["violations"]
+    mode = tf_shim.install()
+    torch.set_num_threads(1)
+    from fairlearn.adversarial import AdversarialFairnessClassifier, AdversarialFairnessRegressor
+    try:
+        from fairlearn.adversarial._tensorflow_engine import TensorflowEngine
+    except Exception:
+        out["classes"] = ["tf_not_executable"]
+        return out
+    if mode != "shim":
+        out["classes"] = ["tf_real_tensorflow_present"]
+        return out
+    log = []
+
+    class SpyTF(TensorflowEngine):
+        def train_step(self, X, Y, A):
+            # force the lazily built layers to exist before the snapshot (same RNG order as the real step)
+            yh = self.predictor_model(X)
+            import tensorflow
+            self.adversary_model(tensorflow.concat((yh, Y), axis=1) if self.base.pass_y_ else yh)
+            rec = {"pm": copy.deepcopy(self.predictor_model), "am": copy.deepcopy(self.adversary_model), "X": X, "Y": Y, "A": A,
+                   "pl": self.predictor_loss, "al": self.adversary_loss, "pass_y": self.base.pass_y_}
+            r = super().train_step(X, Y, A)
+            rec["W_after"] = [p.detach().clone() for p in self.predictor_model.trainable_variables]
+            rec["U_after"] = [p.detach().clone() for p in self.adversary_model.trainable_variables]
+            log.append(rec)
+            return r
+
+    ty, ta, cons = case["ty"], case["ta"], case["cons"]
+    lr = LRS[case["seed"] % 4]
+    out["classes"].add("tensorflow_engine_via_shim")
+    Est = AdversarialFairnessRegressor if ty == "continuous" else AdversarialFairnessClassifier
+    batches = _batches(ty, ta)
+    batches = batches[:3] + batches[-1:]
+    for bi, ms in enumerate(batches):
+        for alpha, d, sign in [(0.0, 2, 1.0), (1.0, 3, -1.0), (0.3, 1, 1.0)][: (2 if case["tier"] == "quick" else 3)]:
+            X = np.array([[sign * v for v in ROWS[j][:d]] for j in ms], float)
+            y = np.array([_labels(ty, j, "y") for j in ms])
+            A = np.array([_labels(ta, j, "a") for j in ms])
+            ctx = "TensorflowEngine(shim) arch=%r adversary=%r target=%s sensitive=%s %s alpha=%r lr=%r X=%r y=%r A=%r" % (
+                case["arch"], case["adv"], ty, ta, cons, alpha, lr, X.tolist(), y.tolist(), A.tolist())
+            del log[:]
+            est = Est(backend=SpyTF, predictor_model=list(case["arch"]), adversary_model=list(case["adv"]), predictor_optimizer="SGD", adversary_optimizer="SGD",
+                      learning_rate=lr, alpha=alpha, constraints=cons, batch_size=-1, epochs=2, shuffle=False, random_state=0)
+            out["evals"] += 1
+            try:
+                est.fit(X, y, sensitive_features=A)
+            except (AttributeError, KeyError, TypeError, NotImplementedError) as e:
+                # the engine touched an API outside the shim: not executable here, never an alarm
+                out["classes"].add("tf_not_executable")
+                out["tf_error"] = repr(e)[:200]
+                continue
+            except Exception as e:
+                V.append(viol("C16:tf:fit-raises-%s" % type(e).__name__, "fit raised %r (%s)" % (e, ctx)))
+                continue
+            for si, rec in enumerate(log):
+                pm, am = rec["pm"], rec["am"]
+                W, U = pm.trainable_variables, am.trainable_variables
+                import tensorflow
+                yh = pm(rec["X"])
+                LP = rec["pl"](rec["Y"], yh)
+                gP = torch.autograd.grad(LP, W, retain_graph=True, allow_unused=True)
+                inp = tensorflow.concat((yh, rec["Y"]), axis=1) if rec["pass_y"] else yh
+                LA = rec["al"](rec["A"], am(inp))
+                gA = torch.autograd.grad(LA, W, retain_graph=True, allow_unused=True)
+                gU = torch.autograd.grad(LA, U, allow_unused=True)
+                z = lambda g, p: torch.zeros_like(p) if g is None else g.detach().as_subclass(torch.Tensor)  # noqa: E731
+                bad = False
+                for ti, (w, gp, ga, ow) in enumerate(zip(W, gP, gA, rec["W_after"])):
+                    gp, ga = z(gp, w), z(ga, w)
+                    n2 = float((ga * ga).sum())
+                    proj = (float((gp * ga).sum()) / n2) * ga if n2 > 0 else torch.zeros_like(ga)
+                    ew = w.detach().as_subclass(torch.Tensor) - lr * (gp - proj - alpha * ga)
+                    ow = ow.as_subclass(torch.Tensor)
+                    if w.dim() == 2 and w.shape[0] >= 2 and w.shape[1] >= 2 and n2 > 0:
+                        out["nontrivial"] = True
+                        out["classes"].add("matrix_tensor_ge2_rows")
+                    tol = 1e-4 * max(1.0, float(ew.abs().max()), lr * (float(gp.abs().max()) + (1 + alpha) * float(ga.abs().max())))
+                    if not torch.isfinite(ow).all() or float((ow - ew).abs().max()) > tol:
+                        V.append(viol("C16:tf:predictor-update", "step %d: predictor tensor %d (shape %r) is %r, projected-gradient update gives %r (%s)" % (
+                            si, ti, tuple(w.shape), np.round(ow.numpy(), 6).tolist(), np.round(ew.numpy(), 6).tolist(), ctx), ew.tolist(), ow.tolist()))
+                        bad = True
+                        break
+                if bad:
+                    break
+                for ti, (u, gu, ou) in enumerate(zip(U, gU, rec["U_after"])):
+                    eu = u.detach().as_subclass(torch.Tensor) - lr * z(gu, u)
+                    ou = ou.as_subclass(torch.Tensor)
+                    if not torch.isfinite(ou).all() or float((ou - eu).abs().max()) > 1e-4 * max(1.0, float(eu.abs().max())):
+                        V.append(viol("C16:tf:adversary-update", "step %d: adversary tensor %d is %r, plain gradient step gives %r (%s)" % (
+                            si, ti, np.round(ou.numpy(), 6).tolist(), np.round(eu.numpy(), 6).tolist(), ctx)))
+                        bad = True
+                        break
+                if bad:
+                    break
     out["classes"] = sorted(out["classes"])
     return out
 
